@@ -77,6 +77,7 @@ func init() {
 		p := args[0].(*Value)
 		s := th.bytesArg(args[1])
 		m.absBufs[p] = th.strConcat(m.bufContent(p), s).(Str)
+		m.bufGrewTo(th, p)
 		return Tuple{th.strLenTerm(s), nilErr}
 	}
 	A["(*bytes.Buffer).WriteString"] = func(th *Thread, fn *ssa.Function, args []Value) Value {
@@ -84,12 +85,14 @@ func init() {
 		p := args[0].(*Value)
 		s := args[1].(Str)
 		m.absBufs[p] = th.strConcat(m.bufContent(p), s).(Str)
+		m.bufGrewTo(th, p)
 		return Tuple{th.strLenTerm(s), nilErr}
 	}
 	A["(*bytes.Buffer).WriteByte"] = func(th *Thread, fn *ssa.Function, args []Value) Value {
 		m := th.m
 		p := args[0].(*Value)
 		m.absBufs[p] = th.strConcat(m.bufContent(p), mkStr([]*Term{args[1].(*Term)})).(Str)
+		m.bufGrewTo(th, p)
 		return nilErr
 	}
 	A["(*bytes.Buffer).Len"] = func(th *Thread, fn *ssa.Function, args []Value) Value {
@@ -106,7 +109,41 @@ func init() {
 		th.m.absBufs[args[0].(*Value)] = Str{}
 		return nil
 	}
-	A["(*bytes.Buffer).Grow"] = func(th *Thread, fn *ssa.Function, args []Value) Value { return nil }
+	// capacity of an abstract buffer: known after Grow on an empty buffer (the runtime's size
+	// classes), carried along while the content fits, otherwise an unknown value >= the length
+	A["(*bytes.Buffer).Grow"] = func(th *Thread, fn *ssa.Function, args []Value) Value {
+		m := th.m
+		p := args[0].(*Value)
+		n := args[1].(*Term)
+		ln := th.strLenTerm(m.bufContent(p))
+		if n.IsConst() && int64(n.Val) < 0 {
+			th.rtPanic("bytes.Buffer.Grow: negative count")
+		}
+		cur := m.bufCap(p)
+		if n.IsConst() && ln.IsConst() && ln.Val == 0 && cur.IsConst() {
+			if int(n.Val) > int(cur.Val) {
+				c := int(n.Val)
+				if cur.Val == 0 && c <= 64 {
+					c = 64
+				} else if c < 2*int(cur.Val) {
+					c = 2 * int(cur.Val)
+				}
+				m.absCaps[p] = m.ts.Const(64, uint64(roundupsizeLarge(c)))
+			}
+			return nil
+		}
+		need := m.ts.Bin(OpAdd, ln, n)
+		m.absCaps[p] = m.capAtLeast(cur, need)
+		return nil
+	}
+	A["(*bytes.Buffer).Available"] = func(th *Thread, fn *ssa.Function, args []Value) Value {
+		m := th.m
+		p := args[0].(*Value)
+		return m.ts.Bin(OpSub, m.bufCap(p), th.strLenTerm(m.bufContent(p)))
+	}
+	A["(*bytes.Buffer).Cap"] = func(th *Thread, fn *ssa.Function, args []Value) Value {
+		return th.m.bufCap(args[0].(*Value))
+	}
 	A["(*bytes.Buffer).Truncate"] = func(th *Thread, fn *ssa.Function, args []Value) Value {
 		m := th.m
 		n := args[1].(*Term)
@@ -506,6 +543,115 @@ func init() {
 	I["sort.Slice"] = sortSlice
 	I["sort.SliceStable"] = sortSlice
 
+	// a sliver of reflect: ValueOf, Kind and IsNil on the dynamic value of an interface (enough
+	// for "is this a typed nil?" checks); the Value carries the interface in its first slot
+	I["reflect.ValueOf"] = func(th *Thread, fn *ssa.Function, args []Value) Value {
+		ifc, ok := args[0].(Iface)
+		if !ok {
+			th.m.unsupported("reflect.ValueOf of a non-interface")
+		}
+		return Struct{ifc, (*Value)(nil), th.m.ts.Const(64, 0)}
+	}
+	reflIface := func(th *Thread, v Value) Iface {
+		st, ok := v.(Struct)
+		if !ok || len(st) != 3 {
+			th.m.unsupported("reflect.Value not made by the modelled reflect.ValueOf")
+		}
+		ifc, ok := st[0].(Iface)
+		if !ok {
+			th.m.unsupported("reflect.Value not made by the modelled reflect.ValueOf")
+		}
+		return ifc
+	}
+	I["(reflect.Value).Kind"] = func(th *Thread, fn *ssa.Function, args []Value) Value {
+		ifc := reflIface(th, args[0])
+		k := 0 // Invalid
+		if ifc.T != nil {
+			switch u := ifc.T.Underlying().(type) {
+			case *types.Basic:
+				switch u.Kind() {
+				case types.Bool:
+					k = 1
+				case types.Int:
+					k = 2
+				case types.Int8:
+					k = 3
+				case types.Int16:
+					k = 4
+				case types.Int32:
+					k = 5
+				case types.Int64:
+					k = 6
+				case types.Uint:
+					k = 7
+				case types.Uint8:
+					k = 8
+				case types.Uint16:
+					k = 9
+				case types.Uint32:
+					k = 10
+				case types.Uint64:
+					k = 11
+				case types.Uintptr:
+					k = 12
+				case types.Float32:
+					k = 13
+				case types.Float64:
+					k = 14
+				case types.String:
+					k = 24
+				case types.UnsafePointer:
+					k = 26
+				default:
+					th.m.unsupported("reflect.Kind of " + u.String())
+				}
+			case *types.Array:
+				k = 17
+			case *types.Chan:
+				k = 18
+			case *types.Signature:
+				k = 19
+			case *types.Interface:
+				k = 20
+			case *types.Map:
+				k = 21
+			case *types.Pointer:
+				k = 22
+			case *types.Slice:
+				k = 23
+			case *types.Struct:
+				k = 25
+			default:
+				th.m.unsupported("reflect.Kind of " + ifc.T.String())
+			}
+		}
+		return th.m.ts.Const(64, uint64(k))
+	}
+	I["(reflect.Value).IsNil"] = func(th *Thread, fn *ssa.Function, args []Value) Value {
+		ifc := reflIface(th, args[0])
+		switch v := ifc.V.(type) {
+		case *Value:
+			return th.m.ts.Bool(v == nil)
+		case Slice:
+			return th.m.ts.Bool(v == nil)
+		case *Map:
+			return th.m.ts.Bool(v == nil)
+		case *Chan:
+			return th.m.ts.Bool(v == nil)
+		case *Closure:
+			return th.m.ts.Bool(v == nil)
+		case nil:
+			if ifc.T != nil {
+				switch ifc.T.Underlying().(type) {
+				case *types.Slice, *types.Pointer, *types.Map, *types.Chan, *types.Signature:
+					return th.m.ts.Bool(true)
+				}
+			}
+		}
+		th.rtPanic("reflect: call of reflect.Value.IsNil on a value that cannot be nil")
+		return nil
+	}
+
 	// strconv on concrete numbers: evaluated natively
 	I["strconv.FormatFloat"] = func(th *Thread, fn *ssa.Function, args []Value) Value {
 		m := th.m
@@ -612,4 +758,56 @@ func init() {
 		th.m.builders[args[0].(*Value)] = Str{}
 		return nil
 	}
+}
+
+// bufCap: capacity of an abstract buffer (0 for a buffer nothing was written to yet).
+func (m *Machine) bufCap(p *Value) *Term {
+	if m.absCaps == nil {
+		m.absCaps = map[*Value]*Term{}
+	}
+	if c, ok := m.absCaps[p]; ok {
+		return c
+	}
+	c := m.ts.Const(64, 0)
+	m.absCaps[p] = c
+	return c
+}
+
+// capAtLeast: cur if it already covers need, otherwise an unknown capacity >= need.
+func (m *Machine) capAtLeast(cur, need *Term) *Term {
+	fits := m.ts.Cmp(OpSLe, need, cur)
+	if fits.IsTrue() {
+		return cur
+	}
+	// bytes.Buffer grows to max(2*cap, needed) rounded up to a malloc size class: at most an
+	// eighth more for the small classes, less than a page (8 KiB) beyond them
+	fresh := m.freshVar("buffer.cap", 64)
+	twice := m.ts.Bin(OpShl, cur, m.ts.Const(64, 1))
+	target := m.ts.Ite(m.ts.Cmp(OpSLt, twice, need), need, twice)
+	slack := m.ts.Bin(OpAdd, m.ts.Bin(OpLShr, target, m.ts.Const(64, 3)), m.ts.Const(64, 8192))
+	m.assume(m.ts.And(m.ts.Cmp(OpSLe, target, fresh), m.ts.Cmp(OpSLe, fresh, m.ts.Bin(OpAdd, target, slack))))
+	m.assume(m.ts.Cmp(OpSLt, need, m.ts.Const(64, 1<<40)))
+	if fits.IsFalse() {
+		return fresh
+	}
+	return m.ts.Ite(fits, cur, fresh)
+}
+
+func (m *Machine) bufGrewTo(th *Thread, p *Value) {
+	m.absCaps[p] = m.capAtLeast(m.bufCap(p), th.strLenTerm(m.bufContent(p)))
+}
+
+// roundupsizeLarge: malloc size classes up to 32 KiB, whole pages (8 KiB) beyond.
+func roundupsizeLarge(n int) int {
+	if n <= 2048 {
+		return roundupsize(n)
+	}
+	classes := []int{2304, 2688, 3072, 3200, 3456, 4096, 4864, 5376, 6144, 6528, 6784, 6912, 8192, 9472, 9728,
+		10240, 10880, 12288, 13568, 14336, 16384, 18432, 19072, 20480, 21760, 24576, 27264, 28672, 32768}
+	for _, c := range classes {
+		if n <= c {
+			return c
+		}
+	}
+	return (n + 8191) / 8192 * 8192
 }
